@@ -26,6 +26,10 @@ BUILD = os.path.join(ROOT, ".build")
 WORK = os.path.join(ROOT, ".work")
 EVID = os.path.join(ROOT, "evidence")
 REPLAYS = os.path.join(ROOT, "replays")
+if os.environ.get("VERIF_REPO"):
+    # sensitivity runs must not overwrite the real evidence or replays
+    EVID = os.path.join(WORK, "mut-evidence")
+    REPLAYS = os.path.join(WORK, "mut-replays")
 GO = "go1.26.8"
 
 sys.path.insert(0, ROOT)
@@ -44,8 +48,27 @@ def go_env():
     return env
 
 
+def harness_dir():
+    """The harness module to build from. With VERIF_REPO=<dir> (a scratch worktree of the repository, used for
+    sensitivity runs against seeded changes) a copy of the harness whose go.mod points at <dir> is used, so /repo
+    itself is never touched."""
+    repo = os.environ.get("VERIF_REPO")
+    if not repo:
+        return HARNESS
+    repo = os.path.abspath(repo)
+    tag = re.sub(r"[^A-Za-z0-9]+", "_", repo).strip("_")
+    dst = os.path.join(WORK, "harness-" + tag)
+    os.makedirs(WORK, exist_ok=True)
+    subprocess.run(["rsync", "-a", "--delete", "--exclude", "testdata/rapid", HARNESS + "/", dst + "/"], check=True)
+    gm = open(os.path.join(dst, "go.mod")).read().replace("=> /repo", "=> " + repo)
+    open(os.path.join(dst, "go.mod"), "w").write(gm)
+    return dst
+
+
 def binary_path(p):
     name = p["pkg"]
+    if os.environ.get("VERIF_REPO"):
+        name = re.sub(r"[^A-Za-z0-9]+", "_", os.path.abspath(os.environ["VERIF_REPO"])).strip("_") + "." + name
     if p.get("race"):
         name += ".race"
     if p.get("tags"):
@@ -63,7 +86,7 @@ def build(p, quiet=True):
         cmd += ["-tags", p["tags"]]
     cmd.append("./" + p["pkg"] + "/")
     t0 = time.time()
-    r = subprocess.run(cmd, cwd=HARNESS, env=go_env(), stdout=subprocess.PIPE, stderr=subprocess.STDOUT, text=True)
+    r = subprocess.run(cmd, cwd=harness_dir(), env=go_env(), stdout=subprocess.PIPE, stderr=subprocess.STDOUT, text=True)
     if r.returncode != 0:
         sys.stdout.write(r.stdout)
         return None
@@ -132,7 +155,7 @@ def run_fuzz(pid, p, tier, workdir):
                "-fuzztime", f"{tgt.get('seconds', 60)}s", "-test.fuzzcachedir", cache, "./" + p["pkg"] + "/"]
         if p.get("tags"):
             cmd[2:2] = ["-tags", p["tags"]]
-        r = subprocess.run(cmd, cwd=HARNESS, env=go_env(), stdout=subprocess.PIPE, stderr=subprocess.STDOUT,
+        r = subprocess.run(cmd, cwd=harness_dir(), env=go_env(), stdout=subprocess.PIPE, stderr=subprocess.STDOUT,
                            text=True, timeout=tgt.get("seconds", 60) + 600)
         execs = 0
         for m in re.finditer(r"execs: (\d+)", r.stdout):
@@ -145,7 +168,7 @@ def run_fuzz(pid, p, tier, workdir):
             m = re.search(r"Failing input written to (\S+)", r.stdout)
             crash = None
             if m:
-                src = os.path.join(HARNESS, p["pkg"], m.group(1)) if not os.path.isabs(m.group(1)) else m.group(1)
+                src = os.path.join(harness_dir(), p["pkg"], m.group(1)) if not os.path.isabs(m.group(1)) else m.group(1)
                 os.makedirs(REPLAYS, exist_ok=True)
                 crash = os.path.join(REPLAYS, f"{pid}-fuzz-{tgt['name']}-{os.path.basename(src)}")
                 try:
